@@ -46,14 +46,26 @@ def safe(s):
 # workers
 # ---------------------------------------------------------------------------
 
+def _job_paths(args):
+    modname, idx, tier = args
+    os.environ['VERIF_TIER'] = tier
+    try:
+        from pyvc import verify as V
+        m = importlib.import_module(modname)
+        return V.enumerate_paths(m.CONTRACTS[idx])
+    except Exception:
+        return None
+
+
 def _job_proof(args):
-    modname, idx, tier, seed = args
+    modname, idx, tier, seed = args[:4]
+    prefix, pidx = (args[4], args[5]) if len(args) > 4 else (None, 0)
     os.environ['VERIF_TIER'] = tier
     try:
         from pyvc import verify as V
         m = importlib.import_module(modname)
         c = m.CONTRACTS[idx]
-        r = V.verify(c)
+        r = V.verify(c, only_prefix=prefix, path_index=pidx)
         d = r.to_dict()
         return d
     except Exception as e:
@@ -117,10 +129,30 @@ def run_property(pid, tier, seed, jobs=16, out=sys.stdout):
     results = []
     bounded = None
     with cf.ProcessPoolExecutor(max_workers=jobs) as ex:
-        futs = [ex.submit(_job_proof, (modname, i, tier, seed)) for i in range(len(contracts))]
         bf = ex.submit(_job_bounded, (modname, tier, seed)) if hasattr(m, 'bounded') else None
-        for f in futs:
-            results.append(f.result())
+        # contracts with slow obligations are split: one job per path (prefixes enumerated first)
+        split = {i: ex.submit(_job_paths, (modname, i, tier)) for i, c in enumerate(contracts) if getattr(c, 'parallel_paths', False)}
+        futs = []
+        for i in range(len(contracts)):
+            pre = split[i].result() if i in split else None
+            if pre:
+                futs.append((i, [ex.submit(_job_proof, (modname, i, tier, seed, p, k)) for k, p in enumerate(pre)]))
+            else:
+                futs.append((i, [ex.submit(_job_proof, (modname, i, tier, seed))]))
+        for i, fl in futs:
+            parts = [f.result() for f in fl]
+            d = parts[0]
+            for q in parts[1:]:      # merge the per-path results of one contract
+                for k in ('obligations', 'undecided', 'errors', 'violations'):
+                    d[k] = d[k] + q[k]
+                for k in ('trusted', 'inlined', 'havocked', 'dropped', 'callee_contracts'):
+                    d[k] = sorted(set(d[k]) | set(q[k]))
+                d['paths'] += q['paths']
+                d['covers'] += q['covers']
+                d['time'] = max(d['time'], q['time'])
+                if d['canary'] != 'sat':
+                    d['canary'] = q['canary']
+            results.append(d)
         # replays of refuted obligations
         for i, d in enumerate(results):
             for v in d['violations']:
